@@ -97,6 +97,7 @@ func runC09(t *testing.T, sc c09scenario, f fault, chs ...*sched.Chooser) (res c
 		horizon := 14 * time.Second
 		e.ClockOn = func() bool { return elapsed() < horizon }
 		crashed := false
+		armed := true // fault hooks fire only while the explored part of the execution runs (not when the scheduler is switched off and parked store operations complete natively)
 		activeCommit, activeAttempts := 0, 0
 		nv := 0
 		st.Observe = func(w Write) {
@@ -128,7 +129,7 @@ func runC09(t *testing.T, sc c09scenario, f fault, chs ...*sched.Chooser) (res c
 		switch f.kind {
 		case "crash-before":
 			st.BeforeCommit = func(w string, k int) bool {
-				if w == "v1" && k == f.k && !crashed {
+				if armed && w == "v1" && k == f.k && !crashed {
 					// f has run (its in-memory and tokens-file side effects happened) but the store is unchanged
 					st.Dead["v1"] = true
 					crashed = true
@@ -144,13 +145,13 @@ func runC09(t *testing.T, sc c09scenario, f fault, chs ...*sched.Chooser) (res c
 			}
 		case "crash-after":
 			st.OnCommit = func(w Write, k int) {
-				if w.Writer == "v1" && k == f.k && !crashed {
+				if armed && w.Writer == "v1" && k == f.k && !crashed {
 					die()
 				}
 			}
 		case "wipe-after":
 			st.OnCommit = func(w Write, k int) {
-				if w.Writer == "v1" && k == f.k && wipedAt.IsZero() {
+				if armed && w.Writer == "v1" && k == f.k && wipedAt.IsZero() {
 					if ent, ok := descOf(w.Out).Ingesters["v"]; ok {
 						oldReg = ent.RegisteredTimestamp
 					}
@@ -181,7 +182,7 @@ func runC09(t *testing.T, sc c09scenario, f fault, chs ...*sched.Chooser) (res c
 			}
 		}
 		restarted := victim
-		if crashed {
+		restart := func() {
 			// the dead process does nothing more; a new process with the same identity starts on what survived
 			victim.svc.StopAsync()
 			writesAtCrash := len(st.Writes)
@@ -207,12 +208,19 @@ func runC09(t *testing.T, sc c09scenario, f fault, chs ...*sched.Chooser) (res c
 					fail("zombie-write", "HARNESS: the crashed process wrote to the store after its death")
 				}
 			}
+		}
+		if crashed {
+			restart()
 		} else if f.kind != "none" && sc.stopAt == 0 {
 			horizon = elapsed() + 16*time.Second
 			e.Run()
+			if crashed { // on a schedule other than the default one the fault point may be reached only now
+				restart()
+			}
 		}
 		log := e.CanonLog()
 		res.trace = append(append([]string{}, e.Trace...), log...)
+		armed = false
 		e.Disable()
 		synctest.Wait()
 		// ---- oracle ----
